@@ -23,12 +23,13 @@ XI = [1.0, math.exp(-0.5), math.exp(-1.0)]   # ln(1/xi^2) = 0, 1, 2
 
 
 class FakePdf:
-    def __init__(self, table, has, xif, state):
-        self.t, self.has, self.state = table, has, state
+    def __init__(self, table, has, xif, state, as_int=False):
+        self.t, self.has, self.state, self.as_int = table, has, state, as_int
         self.mu2 = Q2 * xif**2
 
     def hasFlavor(self, pid):
-        return pid in PIDS and self.has[PIDS.index(pid)]
+        r = pid in PIDS and self.has[PIDS.index(pid)]
+        return int(r) if self.as_int else bool(r)      # (lhapdf-like objects answer with a bool or with 0/1)
 
     def xfxQ2(self, pid, x, mu2):
         if pid not in PIDS or not self.has[PIDS.index(pid)]:
@@ -76,7 +77,7 @@ def execute(ob):
                     if mu != np.sqrt(Q2) * XI[lr]:
                         state["scales_ok"] = False
                     return aem
-                pdf = FakePdf(ob["pdf"][lf], ob["has"], XI[lf], state)
+                pdf = FakePdf(ob["pdf"][lf], ob["has"], XI[lf], state, as_int=bool(ob.get("opexp")) or xs)
                 p = out.apply_pdf_alphas_alphaqed_xir_xif(pdf, alpha_s, alpha_qed, XI[lr], XI[lf])[oname][0]
                 if xs and p.get("y") != 0.7:
                     line["outcome"] = "Crash_LostY"
